@@ -373,8 +373,11 @@ use private::SealedItem;
 pub enum Bech32mZip316 {}
 impl Checksum for Bech32mZip316 {
     type MidstateRepr = <Bech32m as Checksum>::MidstateRepr;
-    // l^MAX from ZIP 316.
-    const CODE_LENGTH: usize = 4194368;
+    // The longest string that can encode a message of l^MAX_M = 4194368 bytes (ZIP 316):
+    // a human-readable part of at most 83 characters, the separator, the message
+    // regrouped into 5-bit characters, and the 6-character checksum. `CODE_LENGTH`
+    // bounds the length of the whole string in characters, not the message in bytes.
+    const CODE_LENGTH: usize = 83 + 1 + (4194368 * 8 + 4) / 5 + 6;
     const CHECKSUM_LENGTH: usize = Bech32m::CHECKSUM_LENGTH;
     const GENERATOR_SH: [u32; 5] = Bech32m::GENERATOR_SH;
     const TARGET_RESIDUE: u32 = Bech32m::TARGET_RESIDUE;
